@@ -18,7 +18,7 @@ save / Load with their grids, GeoNetwork.set_node_weight_type).
 
 check names are "<path>/<observable>".  Separately named checks for situations that are known or
 doubtful:  adjacency_setter/known29-N-change-node-weights (finding #29),
-save_load[gml]/node_weights (+ Spatial/Geo twins), init_edge_list_both_orientations/*,
+save_load[gml]/node_weights (+ Spatial/Geo twins), init_edge_list/both-orientations,
 init/single-node.
 """
 import os
@@ -245,9 +245,12 @@ def run_case(case):
             rows = _edge_rows(A, directed, rs, both=True)
             net = Network(edge_list=rows, n_nodes=n, **kw)
             sub = []
-            compare(sub, "init_edge_list_both_orientations", net, exp, {})
-            fails.extend(sub)
-        guarded("init_edge_list_both_orientations", f)
+            compare(sub, "x", net, exp, {})
+            if sub:     # one stable name for this (doubtful) input form
+                fails.append(("init_edge_list/both-orientations",
+                              "edge list with every undirected link in both orientations (as "
+                              "returned by Network.edge_list()): " + "; ".join(d for _, d in sub)[:400]))
+        guarded("init_edge_list:both-orientations", f)
 
     # --- igraph
     def make_graph():
